@@ -41,6 +41,30 @@ func verifPoisonListing(cls string, rnd *rand.Rand) ([]byte, []string) {
 		return []byte(`{"object":"list","data":[` + strings.Join(d, ",") + `],"models":[` + strings.Join(m, ",") + `]}`)
 	}
 	switch cls {
+	case "mutated":
+		// a well-formed listing with 1..4 byte-level accidents
+		b := both("m1", "m3", "m4-"+fmt.Sprint(rnd.Intn(100)))
+		special := []string{"\"", "{", "}", "[", "]", ",", ":", "\\", "\x00", "\xff", "\\u0000", "null", "1e999", "-", "\n"}
+		for n := 1 + rnd.Intn(4); n > 0 && len(b) > 8; n-- {
+			i := rnd.Intn(len(b))
+			j := i + rnd.Intn(len(b)-i)
+			switch rnd.Intn(5) {
+			case 0: // flip a byte
+				b[i] ^= byte(1 << uint(rnd.Intn(8)))
+			case 1: // cut a range
+				b = append(append([]byte{}, b[:i]...), b[j:]...)
+			case 2: // double a range
+				if j-i > 200 {
+					j = i + 200
+				}
+				b = append(append(append([]byte{}, b[:j]...), b[i:j]...), b[j:]...)
+			case 3: // insert a token that means something to a JSON parser
+				b = append(append(append([]byte{}, b[:i]...), special[rnd.Intn(len(special))]...), b[i:]...)
+			case 4: // the rest never arrives
+				b = b[:i]
+			}
+		}
+		return b, nil
 	case "ok_new":
 		return both("m1", "m3"), []string{"m1", "m3"}
 	case "notjson":
